@@ -1,4 +1,84 @@
-(* TEMPORARY STUB - replaced by the real property file *)
+(* C01 — serializer round-trip fidelity.  Model: model/C01_Model.v (of serialize.py as repaired by
+   fixes/C01-*.diff, all committed to /repo).  Proofs: proof/C01_Proofs_*.v. *)
+From QV.lib Require Import Prelude.
 From QV.model Require Import C01_Model.
-Theorem C01_stub : True. Proof. exact I. Qed.
-Print Assumptions C01_stub.
+From QV.proof Require Import C01_Proofs_RT C01_Proofs_Norm C01_Proofs_Dispatch C01_Proofs_Store.
+From Coq Require Import String.
+Local Open Scope string_scope.
+Local Open Scope list_scope.
+
+(* save() then load() of ANY well-formed object graph (no bound on depth or width; every value
+   kind) returns an object of the same class with exactly the attribute names of the original
+   and structurally equal values: `norm` only forgets what the quantifier allows (NumPy scalar ->
+   Python scalar of the same numeric value, all-numeric sequence -> its promoted numbers, rng
+   state), and lists attributes in the canonical order attrs/arrays/groups (maps are unordered). *)
+Theorem C01_roundtrip :
+  forall v, wf_obj v = true -> load_file [] [] (save_file [] [] v) = RVal (norm v).
+Proof. exact roundtrip. Qed.
+Print Assumptions C01_roundtrip.
+
+(* the if/elif chain of _serialize_value: for every value exactly one branch fires (every earlier
+   guard is false, the guard of the chosen branch is true, 15 = the final `else`), and it is the
+   branch intended for that kind of value *)
+Theorem C01_dispatch_total_unique :
+  forall v, dispatch v = intended v /\ dispatch v <= 15 /\
+            (forall j, j < dispatch v -> nth_guard j v = false) /\
+            (dispatch v < 15 -> nth_guard (dispatch v) v = true).
+Proof. exact dispatch_total_unique. Qed.
+Print Assumptions C01_dispatch_total_unique.
+
+(* saving the loaded object again and reloading it is a fixed point: the object w returned by the
+   first load is returned unchanged by save/load of w itself *)
+Theorem C01_roundtrip_fixpoint :
+  forall v, wf_obj v = true ->
+    exists w, load_file [] [] (save_file [] [] v) = RVal w /\ load_file [] [] (save_file [] [] w) = RVal w.
+Proof. exact roundtrip_fixpoint. Qed.
+Print Assumptions C01_roundtrip_fixpoint.
+
+(* the normal form is itself a well-formed graph and normalising twice changes nothing *)
+Theorem C01_norm_idem :
+  forall v, wf_obj v = true -> wf_obj (norm v) = true /\ norm (norm v) = norm v.
+Proof. intros v H. split; [exact (wf_obj_norm v H) | exact (norm_idem v H)]. Qed.
+Print Assumptions C01_norm_idem.
+
+(* load-time skip lists on a file saved without skipping (used by C14) *)
+Theorem C01_load_skip :
+  forall usn ust v, wf_obj v = true -> load_file usn ust (save_file [] [] v) = RVal (prune_load usn ust (norm v)).
+Proof. exact load_skip_plain_file. Qed.
+Print Assumptions C01_load_skip.
+
+(* store independence: a zarr tree with unique member names per group is recovered exactly from
+   its flat file map (what LocalStore keeps in a directory); the zip archive holds the same file
+   map (members = files of the staged directory store, extractall restores them), so load() sees
+   the same tree, hence returns the same object, for store='zip' and store='dir' *)
+Theorem C01_store_independent :
+  forall t, wf_node t = true ->
+    unflatten (depth t) (unzip_store (zip_store (flatten t))) = Some t /\
+    unflatten (depth t) (flatten t) = Some t.
+Proof. exact store_independent. Qed.
+Print Assumptions C01_store_independent.
+
+(* limits of the statement (each reproduced on the real code, see known_findings.json):
+   an rng inside a container is written but cannot be loaded; an int beyond 2**53 in a sequence
+   that promotes to float changes its numeric value.  wf_obj excludes both. *)
+Example C01_rng_in_container_refuted :
+  load_file [] [] (save_file [] [] (VObj "m" "C" [("l", VList [VRng "PCG64" JNull; VInt 1])])) = RErr.
+Proof. vm_compute. reflexivity. Qed.
+Example C01_numeric_seq_precision_refuted :
+  load_file [] [] (save_file [] [] (VObj "m" "C" [("l", VList [VInt (2 ^ 53 + 1); VFloat 4602678819172646912])]))
+  = RVal (VObj "m" "C" [("l", VList [VFloat (z2f (2 ^ 53)); VFloat 4602678819172646912])]).
+Proof. vm_compute. reflexivity. Qed.
+
+(* non-vacuity: a depth-3 graph using every constructor is well formed, and the theorem's
+   conclusion is checked on it by evaluation as well *)
+Example C01_nonvacuous_wf : wf_obj ex_graph = true.
+Proof. vm_compute. reflexivity. Qed.
+Example C01_nonvacuous_store :
+  wf_node (save_file [] [] ex_graph) = true /\
+  match unflatten (depth (save_file [] [] ex_graph)) (unzip_store (zip_store (flatten (save_file [] [] ex_graph)))) with
+  | Some t => res_eqb (load_file [] [] t) (RVal (norm ex_graph)) | None => false end = true.
+Proof. vm_compute. split; reflexivity. Qed.
+Example C01_nonvacuous_norm_changes : value_eqb (norm ex_graph) ex_graph = false.
+Proof. vm_compute. reflexivity. Qed.
+Example C01_nonvacuous_roundtrip : res_eqb (load_file [] [] (save_file [] [] ex_graph)) (RVal (norm ex_graph)) = true.
+Proof. vm_compute. reflexivity. Qed.
